@@ -5,6 +5,7 @@ import (
 	"crypto/sha256"
 	"encoding/hex"
 	"fmt"
+	"reflect"
 	"runtime"
 	"strconv"
 	"sync"
@@ -32,6 +33,39 @@ type ctask struct {
 	gid    int64
 	f      func()
 	pan    interface{}
+	vc     vclock
+	site   string // last yield site
+}
+
+// vclock is a vector clock over task ids.
+type vclock map[int]int
+
+func (v vclock) copy() vclock {
+	o := make(vclock, len(v))
+	for k, x := range v {
+		o[k] = x
+	}
+	return o
+}
+func (v vclock) join(o vclock) {
+	for k, x := range o {
+		if x > v[k] {
+			v[k] = x
+		}
+	}
+}
+
+type mapAccess struct {
+	task  int
+	clock int
+	site  string
+}
+
+// mapRec is the access history of one built-in map (kept alive by ref so its address is not reused).
+type mapRec struct {
+	ref   interface{}
+	write *mapAccess
+	reads map[int]mapAccess
 }
 
 type cevent struct {
@@ -44,6 +78,8 @@ type cevent struct {
 type lockOwners struct {
 	writer  int // task id+1, 0 = none
 	readers map[int]int
+	wvc     vclock // clock of the last write-unlock
+	rvc     vclock // join of the clocks of the read-unlocks since
 }
 
 // Coop schedules tasks cooperatively.
@@ -65,6 +101,13 @@ type Coop struct {
 	Switches int
 	// BeforeResume, when set, is called by the scheduler before every resume decision
 	OnPoint func(point int)
+	// happens-before checker over the announced map accesses of the tasks (T10, range steps): Races
+	// lists pairs of accesses to the same map, at least one a write, by two tasks with no lock
+	// hand-over ordering them -- in a real execution the Go runtime aborts the process on such a
+	// pair ("concurrent map read and map write" / "concurrent map iteration and map write").
+	maps  map[uintptr]*mapRec
+	Races []string
+	raced map[string]bool
 }
 
 // NewCoop creates a scheduler and installs the xsimrt hooks.
@@ -80,6 +123,7 @@ func NewCoop(rc *RunCtx, preempts []Preempt, onBlock []int, extra *xsimrt.H) *Co
 	h.Yield = c.hookYield
 	h.Lock = c.hookLock
 	h.Unlock = c.hookUnlock
+	h.MapAccess = c.hookMapAccess
 	h.Go = func(site string, f func()) bool {
 		if c.abort {
 			return false
@@ -112,7 +156,13 @@ func (c *Coop) isCur() bool {
 // Spawn adds a task (may be called before Run or by a running task).
 func (c *Coop) Spawn(name string, f func()) int {
 	c.mu.Lock()
-	t := &ctask{id: len(c.tasks), name: name, resume: make(chan struct{}), f: f}
+	t := &ctask{id: len(c.tasks), name: name, resume: make(chan struct{}), f: f, vc: vclock{}}
+	if p := c.cur; p != nil && p.gid == curGID() {
+		// spawned by the running task: everything the parent did so far happens before the child
+		t.vc = p.vc.copy()
+		p.vc[p.id]++
+	}
+	t.vc[t.id] = 1
 	c.tasks = append(c.tasks, t)
 	c.mu.Unlock()
 	go func() {
@@ -152,7 +202,63 @@ func (c *Coop) hookYield(site string) {
 	if !c.isCur() {
 		return
 	}
+	c.cur.site = site
 	c.park(0, nil, site)
+}
+
+// hookMapAccess checks an announced map access of the running task against the earlier accesses of
+// the other tasks: an earlier access a by task u is ordered before the current one iff the current
+// task's clock has caught up with u's clock at a (through a chain of lock hand-overs or spawns).
+func (c *Coop) hookMapAccess(m interface{}, write bool, site string) {
+	if !c.isCur() {
+		return
+	}
+	rv := reflect.ValueOf(m)
+	if rv.Kind() != reflect.Map || rv.IsNil() {
+		return
+	}
+	t := c.cur
+	if site == "range-step" || site == "range-start" {
+		site = site + " after " + t.site
+	}
+	c.mu.Lock()
+	defer c.mu.Unlock()
+	if c.maps == nil {
+		c.maps = map[uintptr]*mapRec{}
+		c.raced = map[string]bool{}
+	}
+	rec := c.maps[rv.Pointer()]
+	if rec == nil {
+		rec = &mapRec{ref: m, reads: map[int]mapAccess{}}
+		c.maps[rv.Pointer()] = rec
+	}
+	report := func(prev mapAccess, prevKind string) {
+		kind := "read"
+		if write {
+			kind = "write"
+		}
+		msg := fmt.Sprintf("%s of a %s by task %s at %s is not ordered after the %s by task %s at %s", kind, rv.Type(), t.name, site, prevKind, c.tasks[prev.task].name, prev.site)
+		key := fmt.Sprint(kind, site, prevKind, prev.site)
+		if !c.raced[key] {
+			c.raced[key] = true
+			c.Races = append(c.Races, msg)
+		}
+	}
+	if w := rec.write; w != nil && w.task != t.id && w.clock > t.vc[w.task] {
+		report(*w, "write")
+	}
+	me := mapAccess{task: t.id, clock: t.vc[t.id], site: site}
+	if write {
+		for u, a := range rec.reads {
+			if u != t.id && a.clock > t.vc[u] {
+				report(a, "read")
+			}
+		}
+		rec.write = &me
+		rec.reads = map[int]mapAccess{}
+	} else {
+		rec.reads[t.id] = me
+	}
 }
 
 func tryLock(mu interface{}, kind int) bool {
@@ -224,9 +330,11 @@ func (c *Coop) hookLock(mu interface{}, kind int, site string) {
 	}
 	c.mu.Lock()
 	o := c.owners(mu)
+	c.cur.vc.join(o.wvc)
 	if kind == xsimrt.KRLock {
 		o.readers[c.cur.id]++
 	} else {
+		c.cur.vc.join(o.rvc)
 		o.writer = c.cur.id + 1
 	}
 	c.mu.Unlock()
@@ -248,6 +356,16 @@ func (c *Coop) hookUnlock(mu interface{}, kind int, site string) {
 	}
 	c.mu.Lock()
 	o := c.owners(mu)
+	if kind == xsimrt.KRLock {
+		if o.rvc == nil {
+			o.rvc = vclock{}
+		}
+		o.rvc.join(c.cur.vc)
+	} else {
+		o.wvc = c.cur.vc.copy()
+		o.rvc = nil
+	}
+	c.cur.vc[c.cur.id]++
 	if kind == xsimrt.KRLock {
 		o.readers[c.cur.id]--
 		if o.readers[c.cur.id] <= 0 {
